@@ -86,7 +86,7 @@ NameFrom(parts, shapes, idx) ==       \* a[i].b.c[j,k]
         here == parts[1] \o (IF n = 0 THEN "" ELSE "[" \o CommaList(SubSeq(idx, 1, n)) \o "]")
     IN  IF Len(parts) = 1 THEN here ELSE here \o "." \o NameFrom(Tail(parts), Tail(shapes), SubSeq(idx, n + 1, Len(idx)))
 ScalarName(fv, idx, isDer) == IF isDer THEN "der(" \o NameFrom(fv.parts, fv.shapes, idx) \o ")" ELSE NameFrom(fv.parts, fv.shapes, idx)
-ScalarNames(fv, isDer) == [k \in DOMAIN Tuples(fv) |-> ScalarName(fv, Tuples(fv)[k], isDer)]
+ScalarNames(fv, isDer) == LET tp == Tuples(fv) IN [k \in DOMAIN tp |-> ScalarName(fv, tp[k], isDer)]
 
 (* row-major position of an own-dimension index tuple *)
 PosIn(dims, ix) == IF Len(dims) = 0 THEN 1 ELSE IF Len(dims) = 1 THEN ix[1] ELSE (ix[1] - 1) * dims[2] + ix[2]
@@ -108,7 +108,7 @@ FormatFrom(names, shapes, idx) ==     \* component_name_format.format(*(i + 1 fo
     LET n    == Len(shapes[1])
         here == names[1] \o (IF shapes[1] = <<>> THEN "" ELSE "[" \o CommaList([j \in 1..n |-> idx[j] + 1]) \o "]")
     IN  IF Len(names) = 1 THEN here ELSE here \o "." \o FormatFrom(Tail(names), Tail(shapes), SubSeq(idx, n + 1, Len(idx)))
-NdIndex(fv) == [k \in DOMAIN Tuples(fv) |-> [j \in DOMAIN Tuples(fv)[k] |-> Tuples(fv)[k][j] - 1]]     \* np.ndindex: C order, 0-based
+NdIndex(fv) == LET tp == Tuples(fv) IN [k \in DOMAIN tp |-> [j \in DOMAIN tp[k] |-> tp[k][j] - 1]]     \* np.ndindex: C order, 0-based
 OpName(fv, ind, isDer) == LET sp == SplitName(fv, isDer) IN sp.prefix \o FormatFrom(sp.names, fv.shapes, ind) \o sp.postfix
 
 (* how the attribute is stored on the unexpanded Variable: "scalar" | "list" (python list, nested per own dims) | "mx" (matrix shaped like the symbol) *)
@@ -218,19 +218,21 @@ MiscItems ==
 
 Items(tier) ==
     {TopItem(d, kd, mt) : d \in Shapes(tier), kd \in Kinds, mt \in UNION {ArrMods(dd) : dd \in Shapes(tier)}}
-    \cup {NestedItem(od, id, mt, st) : od \in {<<>>, <<2>>}, id \in {<<2>>, <<2, 2>>},
+    \cup ({NestedItem(od, id, mt, st) : od \in {<<>>, <<2>>}, id \in {<<2>>, <<2, 2>>},
               mt \in {m \in ArrMods(<<2>>) \cup ArrMods(<<2, 2>>) : m[2] \in {"attr-array-lit", "attr-matrix-lit", "attr-none", "attr-each"}}, st \in BOOLEAN}
+         \ {NestedItem(<<2>>, <<2, 2>>, mt, st) : mt \in ArrMods(<<2, 2>>), st \in BOOLEAN})      \* 3 dimensions: MX cannot hold it (NotImplementedError without expansion)
     \cup MiscItems
 
 (* keep the well-shaped ones: attribute values scalar or shaped like the own dimensions; parameters get no min/max of other parameters' arrays etc. *)
-FlatProg(P) == [P EXCEPT !.comps = [i \in DOMAIN FlatVars(P) |->
-                    Comp(FlatName(FlatVars(P)[i]), FlatVars(P)[i].type, FlatVars(P)[i].prefix, AllDims(FlatVars(P)[i]), <<>>)]]
+FlatProg(P) == LET fvs == FlatVars(P)
+               IN  [P EXCEPT !.comps = [i \in DOMAIN fvs |-> Comp(FlatName(fvs[i]), fvs[i].type, fvs[i].prefix, AllDims(fvs[i]), <<>>)]]
 (* attribute expressions only mention the top-level parameters p and w: evaluate them in that context *)
 AttrCx(P, t) == Cx(P, EnvAt(FlatProg(P), t), NoLoc)
-ShapeOK(it) == \A i \in DOMAIN FlatVars(it.prog) : \A j \in DOMAIN ATTRS :
-                  LET fv == FlatVars(it.prog)[i] IN
-                  HasMod(fv, ATTRS[j]) =>
-                      LET v == AttrValue(fv, ATTRS[j], AttrCx(it.prog, 1)) IN ~IsErr(v) /\ (IsScalar(v) \/ v.sh = OwnDims(fv))
+ShapeOK(it) == LET fvs == FlatVars(it.prog)
+                   cx  == AttrCx(it.prog, 1)
+               IN  \A i \in DOMAIN fvs : \A j \in DOMAIN ATTRS :
+                      HasMod(fvs[i], ATTRS[j]) =>
+                          LET v == AttrValue(fvs[i], ATTRS[j], cx) IN ~IsErr(v) /\ (IsScalar(v) \/ v.sh = OwnDims(fvs[i]))
 (* a parameter's own attributes must not depend on other parameters through arrays it cannot have; inputs / parameters take no "value" *)
 Family == {it \in Items(Tier) : ShapeOK(it)}
 
@@ -238,8 +240,14 @@ Family == {it \in Items(Tier) : ShapeOK(it)}
 (* machine: the loop of _expand_vectors over the variable groups *)
 GROUPS == <<"states", "der_states", "alg_states", "inputs", "parameters", "constants">>
 
-VARIABLES item, gi, expanded, raised
-vars == <<item, gi, expanded, raised>>
+VARIABLES item,      \* the program
+          gi,        \* number of variable groups expanded so far (99 = finished)
+          expanded,  \* operational side: per group the expanded scalars [name, attrs per point]
+          raised,    \* the expansion raised (TypeError)
+          fvs,       \* the flat variables of the program
+          cxs,       \* environment per point (parameter values, variable values)
+          decl       \* declarative side: per group the expected scalars
+vars == <<item, gi, expanded, raised, fvs, cxs, decl>>
 P0 == item.prog
 Pts == 1..NPts
 NShards == IF "VF_NSHARDS" \in DOMAIN IOEnv THEN atoi(IOEnv.VF_NSHARDS) ELSE 1
@@ -247,23 +255,33 @@ ShardNo == IF "VF_SHARD" \in DOMAIN IOEnv THEN atoi(IOEnv.VF_SHARD) ELSE 0
 Shard == IF NShards = 1 THEN Family
          ELSE LET its == SetToSeq(Family) IN {its[i] : i \in {j \in DOMAIN its : j % NShards = ShardNo}}
 
-Init == item \in Shard /\ gi = 0 /\ expanded = <<>> /\ raised = FALSE
-
 (* the variables of group g, in model order (declaration order within a group) *)
-GroupVars(g) == LET fvs == FlatVars(P0)
-                    src == IF g = "der_states" THEN "states" ELSE g
-                IN  SelectSeq(fvs, LAMBDA fv : CatOf(fv, item.states) = src)
+GroupVarsOf(fv_, states, g) == LET src == IF g = "der_states" THEN "states" ELSE g
+                               IN  SelectSeq(fv_, LAMBDA fv : CatOf(fv, states) = src)
+GroupVars(g) == GroupVarsOf(fvs, item.states, g)
 
 OpExpandVar(fv, isDer) ==       \* list of [name, attrs: per point per attribute [st, v]]
-    [k \in DOMAIN NdIndex(fv) |->
-        [name |-> OpName(fv, NdIndex(fv)[k], isDer),
+    LET nd == NdIndex(fv) IN
+    [k \in DOMAIN nd |->
+        [name |-> OpName(fv, nd[k], isDer),
          attrs |-> IF isDer THEN <<>>
-                   ELSE [t \in Pts |-> [j \in DOMAIN ATTRS |-> OpAttr(fv, ATTRS[j], NdIndex(fv)[k], AttrCx(P0, t))]]]]
-DeclExpandVar(fv, isDer) ==
-    [k \in DOMAIN Tuples(fv) |->
-        [name |-> ScalarName(fv, Tuples(fv)[k], isDer),
+                   ELSE [t \in Pts |-> [j \in DOMAIN ATTRS |-> OpAttr(fv, ATTRS[j], nd[k], Cx(P0, cxs[t], NoLoc))]]]]
+DeclExpandVar(fv, isDer, cx_) ==
+    LET tp == Tuples(fv) IN
+    [k \in DOMAIN tp |->
+        [name |-> ScalarName(fv, tp[k], isDer),
          attrs |-> IF isDer THEN <<>>
-                   ELSE [t \in Pts |-> [j \in DOMAIN ATTRS |-> [st |-> "ok", v |-> AttrElem(fv, ATTRS[j], Tuples(fv)[k], AttrCx(P0, t))]]]]]
+                   ELSE [t \in Pts |-> [j \in DOMAIN ATTRS |-> [st |-> "ok", v |-> AttrElem(fv, ATTRS[j], tp[k], cx_[t])]]]]]
+
+Init == /\ item \in Shard /\ gi = 0 /\ expanded = <<>> /\ raised = FALSE
+        /\ fvs = FlatVars(item.prog)
+        /\ cxs = LET fp == FlatProg(item.prog) IN [t \in Pts |-> EnvAt(fp, t)]
+        /\ decl = LET f == FlatVars(item.prog)
+                      fp == FlatProg(item.prog)
+                      c == [t \in Pts |-> Cx(item.prog, EnvAt(fp, t), NoLoc)]
+                  IN  [g \in DOMAIN GROUPS |->
+                         LET gv == GroupVarsOf(f, item.states, GROUPS[g])
+                         IN  Flatten([i \in DOMAIN gv |-> DeclExpandVar(gv[i], GROUPS[g] = "der_states", c)])]
 
 ExpandGroup ==
     /\ gi < Len(GROUPS) /\ ~raised
@@ -271,47 +289,46 @@ ExpandGroup ==
            gv  == GroupVars(g)
            out == Flatten([i \in DOMAIN gv |-> OpExpandVar(gv[i], g = "der_states")])
        IN  /\ expanded' = Append(expanded, out)
-           /\ raised' = \E i \in DOMAIN out : out[i].attrs # <<>> /\ \E t \in Pts : \E j \in DOMAIN ATTRS : out[i].attrs[t][j].st = "raise"
-    /\ gi' = gi + 1 /\ UNCHANGED item
-
-DeclGroup(g) == Flatten([i \in DOMAIN GroupVars(g) |-> DeclExpandVar(GroupVars(g)[i], g = "der_states")])
+           /\ raised' = LET o2 == expanded'[gi + 1]
+                        IN  \E i \in DOMAIN o2 : o2[i].attrs # <<>> /\ \E t \in Pts : \E j \in DOMAIN ATTRS : o2[i].attrs[t][j].st = "raise"
+    /\ gi' = gi + 1 /\ UNCHANGED <<item, fvs, cxs, decl>>
 
 (* outputs: names of output-prefixed states and algebraic variables, each array replaced in place by its scalars *)
 StatesThenAlg == GroupVars("states") \o GroupVars("alg_states")
-DeclOutputs == Flatten([i \in DOMAIN StatesThenAlg |->
-                  IF StatesThenAlg[i].prefix = "output" THEN ScalarNames(StatesThenAlg[i], FALSE) ELSE <<>>])
+DeclOutputs == LET sa == StatesThenAlg
+               IN  Flatten([i \in DOMAIN sa |-> IF sa[i].prefix = "output" THEN ScalarNames(sa[i], FALSE) ELSE <<>>])
 
 (* renaming map: flat array name -> scalar names in Modelica (row-major) order; also for derivatives *)
-NameMap == [i \in DOMAIN FlatVars(P0) |-> [flat |-> FlatName(FlatVars(P0)[i]), dims |-> AllDims(FlatVars(P0)[i]),
-                                           scalars |-> ScalarNames(FlatVars(P0)[i], FALSE),
-                                           derscalars |-> ScalarNames(FlatVars(P0)[i], TRUE)]]
+NameMap == [i \in DOMAIN fvs |-> [flat |-> FlatName(fvs[i]), dims |-> AllDims(fvs[i]),
+                                   scalars |-> ScalarNames(fvs[i], FALSE), derscalars |-> ScalarNames(fvs[i], TRUE)]]
 
-PtOK(t) == \A gidx \in DOMAIN GROUPS : \A i \in DOMAIN DeclGroup(GROUPS[gidx]) :
-              LET a == DeclGroup(GROUPS[gidx])[i].attrs IN a = <<>> \/ \A j \in DOMAIN ATTRS : a[t][j].v # Und
+PtOK(t) == \A g \in DOMAIN GROUPS : \A i \in DOMAIN decl[g] :
+              decl[g][i].attrs = <<>> \/ \A j \in DOMAIN ATTRS : decl[g][i].attrs[t][j].v # Und
 GoodPts == SelectSeq(<<1, 2, 3, 4>>, PtOK)
 
 Finish ==
-    /\ (gi = Len(GROUPS) \/ raised) /\ gi # 99 /\ gi' = 99 /\ UNCHANGED <<item, expanded, raised>>
-    /\ PrintT(<<"PROG", ToJson([prog |-> P0, tags |-> {"fam:vexp"} \cup item.extra, attrs |-> ATTRS, groups |-> GROUPS,
-                                expect |-> [g \in DOMAIN GROUPS |-> [i \in DOMAIN DeclGroup(GROUPS[g]) |->
-                                              [name |-> DeclGroup(GROUPS[g])[i].name,
-                                               attrs |-> IF DeclGroup(GROUPS[g])[i].attrs = <<>> THEN <<>>
-                                                         ELSE [k \in DOMAIN GoodPts |-> [j \in DOMAIN ATTRS |-> DeclGroup(GROUPS[g])[i].attrs[GoodPts[k]][j].v]]]]],
+    /\ (gi = Len(GROUPS) \/ raised) /\ gi # 99 /\ gi' = 99 /\ UNCHANGED <<item, expanded, raised, fvs, cxs, decl>>
+    /\ LET gp == GoodPts IN
+       PrintT(<<"PROG", ToJson([prog |-> P0, tags |-> {"fam:vexp"} \cup item.extra, attrs |-> ATTRS, groups |-> GROUPS,
+                                expect |-> [g \in DOMAIN GROUPS |-> [i \in DOMAIN decl[g] |->
+                                              [name |-> decl[g][i].name,
+                                               attrs |-> IF decl[g][i].attrs = <<>> THEN <<>>
+                                                         ELSE [k \in DOMAIN gp |-> [j \in DOMAIN ATTRS |-> decl[g][i].attrs[gp[k]][j].v]]]]],
                                 outputs |-> DeclOutputs, namemap |-> NameMap, modelraises |-> raised,
-                                pts |-> [k \in DOMAIN GoodPts |-> [t |-> GoodPts[k], env |-> EnvAt(FlatProg(P0), GoodPts[k])]]])>>)
+                                pts |-> [k \in DOMAIN gp |-> [t |-> gp[k], env |-> cxs[gp[k]]]]])>>)
 Next == ExpandGroup \/ Finish
 
 -----------------------------------------------------------------------------
 Done == gi = 99
 NoRaise == Done => ~raised
 NamesAgree == (Done /\ ~raised) => \A g \in DOMAIN GROUPS :
-                 [i \in DOMAIN expanded[g] |-> expanded[g][i].name] = [i \in DOMAIN DeclGroup(GROUPS[g]) |-> DeclGroup(GROUPS[g])[i].name]
+                 [i \in DOMAIN expanded[g] |-> expanded[g][i].name] = [i \in DOMAIN decl[g] |-> decl[g][i].name]
 AttrsAgree == (Done /\ ~raised) => \A g \in DOMAIN GROUPS : \A i \in DOMAIN expanded[g] : \A t \in Pts :
-                 (PtOK(t) /\ expanded[g][i].attrs # <<>>) => expanded[g][i].attrs[t] = DeclGroup(GROUPS[g])[i].attrs[t]
+                 (PtOK(t) /\ expanded[g][i].attrs # <<>>) => expanded[g][i].attrs[t] = decl[g][i].attrs[t]
 (* element (row, col) of the matrix substituted for an array symbol is the scalar whose name carries the
    Modelica subscripts of exactly that element *)
-RenamingFaithful == Done => \A i \in DOMAIN FlatVars(P0) :
-    LET fv == FlatVars(P0)[i] IN
+RenamingFaithful == Done => \A i \in DOMAIN fvs :
+    LET fv == fvs[i] IN
     (IsArray(fv) /\ Len(AllDims(fv)) <= 2) =>
         \A k \in 1..Numel(AllDims(fv)) :
             LET r == SymShape(fv)[1]
